@@ -233,3 +233,98 @@ package tq
 //@   assumed
 //@   props C18
 //@   modifies heap
+
+// C02 / C09: the SSH adapter's download path, same shape as the basic one: a
+// temp file in the incomplete area receives the stream, and only when the
+// bytes written hash to the id is it renamed to the object path.
+//@ func (*SSHAdapter).tempDir
+//@   props C02 C09
+//@   requires @inv a.fs != nil
+//@   modifies fresh
+//@   ensures isauxdir(result)
+//@ func (*SSHAdapter).download
+//@   props C02 C09
+//@   requires @inv t != nil && a.fs != nil && a.transfer != nil && t.Path == objpath(t.Oid)
+//@   requires @inv fexists(t.Path) ==> hexsha(fdata(t.Path)) == t.Oid
+//@   ensures result == nil ==> fexists(old(t.Path)) && hexsha(fdata(old(t.Path))) == old(t.Oid)
+//@   ensures result != nil ==> fexists(old(t.Path)) == old(fexists(t.Path)) && fdata(old(t.Path)) == old(fdata(t.Path))
+//@ func (*SSHAdapter).doDownload
+//@   props C02 C09
+//@   requires @inv t != nil && f != nil && a.transfer != nil && t.Path == objpath(t.Oid)
+//@   requires @inv fexists(t.Path) ==> hexsha(fdata(t.Path)) == t.Oid
+//@   requires !isobj(fpath(f)) && fdata(fpath(f)) == "" && rrest(iface(f)) == ""
+//@   requires @inv !dyntype(io.Discard, "*os.File")
+//@   modifies fresh, ghost fexists[t.Path], ghost fdata[t.Path], ghost fexists[fpath(f)], ghost fdata[fpath(f)], ghost wbuf, ghost rrest, ghost lastcopy
+//@   ensures result == nil ==> fexists(old(t.Path)) && hexsha(fdata(old(t.Path))) == old(t.Oid)
+//@   ensures result != nil ==> fexists(old(t.Path)) == old(fexists(t.Path)) && fdata(old(t.Path)) == old(fdata(t.Path))
+// The wire side (assumed frames: they talk to the remote process and touch
+// neither the transfer nor local files).
+//@ func (*SSHAdapter).argumentsForTransfer
+//@   assumed
+//@   props C02 C09
+//@   modifies fresh
+//@ func (*github.com/git-lfs/git-lfs/v3/ssh.SSHTransfer).Connection
+//@   assumed
+//@   props C02 C09
+//@   modifies fresh
+//@   ensures result1 == nil ==> result0 != nil
+//@ func (*github.com/git-lfs/git-lfs/v3/ssh.PktlineConnection).SendMessage
+//@   assumed
+//@   props C02 C09
+//@   modifies fresh
+//@ func (*github.com/git-lfs/git-lfs/v3/ssh.PktlineConnection).ReadStatusWithData
+//@   assumed
+//@   props C02 C09
+//@   modifies fresh
+//@ func (*github.com/git-lfs/git-lfs/v3/ssh.PktlineConnection).Lock
+//@   assumed
+//@   props C02 C09
+//@   noeffect
+//@ func (*github.com/git-lfs/git-lfs/v3/ssh.PktlineConnection).Unlock
+//@   assumed
+//@   props C02 C09
+//@   noeffect
+
+// C02 / C09: custom transfer agents.  What the external process says it
+// downloaded is re-hashed by git-lfs itself and only then renamed to the
+// object path; a failed transfer leaves the object path alone.
+//@ func (*customAdapter).DoTransfer
+//@   props C02 C09
+//@   requires @inv t != nil && t.Path == objpath(t.Oid)
+//@   requires @inv fexists(t.Path) ==> hexsha(fdata(t.Path)) == t.Oid
+//@   loop 1 invariant !complete ==> fexists(t.Path) == old(fexists(t.Path)) && fdata(t.Path) == old(fdata(t.Path))
+//@   loop 1 invariant complete && a.direction == Download ==> fexists(t.Path) && hexsha(fdata(t.Path)) == t.Oid
+//@   loop 1 invariant complete && a.direction != Download ==> fexists(t.Path) == old(fexists(t.Path)) && fdata(t.Path) == old(fdata(t.Path))
+//@   ensures result == nil && old(a.direction) == Download ==> fexists(old(t.Path)) && hexsha(fdata(old(t.Path))) == old(t.Oid)
+//@   ensures result != nil || old(a.direction) != Download ==> fexists(old(t.Path)) == old(fexists(t.Path)) && fdata(old(t.Path)) == old(fdata(t.Path))
+//@ func github.com/git-lfs/git-lfs/v3/tools.VerifyFileHash
+//@   props C02 C09
+//@   modifies fresh, ghost fpath, ghost fpos, ghost rrest, ghost wbuf
+//@   ensures result == nil ==> fexists(path) && hexsha(fdata(path)) == oid
+// The conversation with the agent and the upload verification (assumed
+// frames: neither touches the transfer or local files).
+//@ func (*customAdapter).sendMessage
+//@   assumed
+//@   props C02 C09
+//@   modifies fresh
+//@ func (*customAdapter).readResponse
+//@   assumed
+//@   props C02 C09
+//@   modifies fresh
+//@   ensures result1 == nil ==> result0 != nil
+//@ func (*customAdapter).getOperationName
+//@   assumed
+//@   props C02 C09
+//@   noeffect
+//@ func NewCustomAdapterUploadRequest
+//@   assumed
+//@   props C02 C09
+//@   modifies fresh
+//@ func NewCustomAdapterDownloadRequest
+//@   assumed
+//@   props C02 C09
+//@   modifies fresh
+//@ func verifyUpload
+//@   assumed
+//@   props C02 C09
+//@   modifies fresh
